@@ -172,7 +172,15 @@ def gen_manyrefs(tier):
                     yield {"g": "manyrefs", "n": n, "ch": ch, "sep": sep, "lang": lang}
 
 
-SPACE = GenSpace({"manyrefs": gen_manyrefs, "structnames": gen_structnames, "longattr": gen_longattr, "api": gen_api, "text": gen_text, "grid": gen_grid, "defaults": gen_defaults, "types": gen_types, "layouts": gen_layouts,
+def gen_corpus(tier):
+    """the frozen corpus of realistic workbooks (xmc/corpus.py): every form in both print modes"""
+    from xmc import corpus
+
+    for cid, name, wb in corpus.forms():
+        yield {"g": "wb", "wb": wb, "corpus": cid}
+
+
+SPACE = GenSpace({"corpus": gen_corpus, "manyrefs": gen_manyrefs, "structnames": gen_structnames, "longattr": gen_longattr, "api": gen_api, "text": gen_text, "grid": gen_grid, "defaults": gen_defaults, "types": gen_types, "layouts": gen_layouts,
                   "multiline": gen_multiline, "typed": gen_typed}, chunk=400)
 blocks = SPACE.blocks
 expand = SPACE.expand
@@ -367,6 +375,8 @@ def check_one(case):
     if d:
         where = d.split(":")[0].split("/")[-1]
         viol.append((f"print-modes-differ:{g}:{where}", d))
+    if case.get("corpus"):
+        viol = [(f"{s_}:corpus", d_) for s_, d_ in viol]
     if O.nsmap_of(a.xform) != O.nsmap_of(b.xform):
         viol.append((f"namespaces-differ:{g}", ""))
     mixed, spaced = features(ta)
